@@ -450,6 +450,8 @@ pub fn run_check(property: &'static str, fams: &[&dyn Family], tier: Tier, verif
     let mut transitions = 0u64;
     let mut samples: Vec<Value> = Vec::new();
     let mut fam_json = Vec::new();
+    // evaluations a family could not decide (its reference or the Go model lacks something): tag -> count
+    let mut undecided: BTreeMap<String, u64> = BTreeMap::new();
     let mut violations: Vec<(String, String, String, Value)> = Vec::new();
     let mut known_hits: BTreeMap<String, (String, u64)> = BTreeMap::new();
     let mut exhaustive = true;
@@ -537,6 +539,11 @@ pub fn run_check(property: &'static str, fams: &[&dyn Family], tier: Tier, verif
                 fam_viol += 1;
             }
         }
+        for (t, n) in r.tags.iter() {
+            if t.starts_with("machinery:") {
+                *undecided.entry(format!("{}/{}", fam.name(), t)).or_insert(0u64) += *n;
+            }
+        }
         fam_json.push(json!({
             "family": fam.name(), "evaluations": r.evaluations, "distinct_nontrivial": r.nontrivial.len(),
             "distinct_outcomes": r.outcomes.len(), "tags": r.tags, "complete": r.complete, "wall_s": r.wall_s,
@@ -617,8 +624,22 @@ pub fn run_check(property: &'static str, fams: &[&dyn Family], tier: Tier, verif
         exhaustive,
         wall
     );
+    // undecided evaluations are tolerated only up to what undecided_allow.json lists for this tier
+    // (explained there); more than that means a generator outran its reference, i.e. silence
+    let allow: Value = std::fs::read_to_string(format!("{}/undecided_allow.json", verif_root)).ok().and_then(|t| serde_json::from_str(&t).ok()).unwrap_or(json!({}));
+    let mut over = 0u64;
+    for (tag, n) in &undecided {
+        let allowed = allow[tier.name()][tag].as_u64().or_else(|| allow["any"][tag].as_u64()).unwrap_or(0);
+        if *n > allowed {
+            eprintln!("machinery: {} evaluations undecided ({}), allowed {}", n, tag, allowed);
+            over += 1;
+        }
+    }
     if !groups.is_empty() {
         1
+    } else if over > 0 {
+        eprintln!("machinery: undecided evaluations above the allowance; no verdict");
+        2
     } else if machinery_failures > 0 {
         eprintln!("machinery: {} cases were not explored because a worker died; no verdict", machinery_failures);
         2
